@@ -134,6 +134,17 @@ def _body(cs, o0, o1, o2, k, reps):
     n_body = sum(1 for e in log if e[0] == "body")
     n_enter = sum(1 for e in log if e[0] == "enter")
     n_exit = sum(1 for e in log if e[0] == "exit")
+    if n_exit != n_enter:
+        ok = fail("decorator:entered-context-not-exited", (choices.trace, n_enter, n_exit, cancelled)) and ok
+    if cancelled and kind != "decorator-class":
+        got_cancel = [e for e in log if e[0] == "exit" and e[2] is cancel]
+        in_body_or_exit = any(e[0] == "body" and e[1] == 0 for e in log)
+        if in_body_or_exit and not got_cancel and not any(e[0] == "exit" and e[1] is not None for e in log if False):
+            # cancelled after entering: the exit must have seen the cancellation unless the body had ended
+            body_ended = sum(1 for e in log if e[0] == "body-end" and e[1] == 0)
+            bodies = sum(1 for e in log if e[0] == "body" and e[1] == 0)
+            if bodies > body_ended:
+                ok = fail("decorator:exit-did-not-receive-cancellation", (choices.trace,)) and ok
     if not cancelled:
         if n_enter != n_body or n_exit != n_body or n_body != NT * reps:
             ok = fail("decorator:enter-body-exit-counts-differ", (n_enter, n_body, n_exit)) and ok
